@@ -421,6 +421,8 @@ fn c13_wire(seed: u64, rep: &Report) -> Result<(), String> {
     cell.start_pgcat(&cfg, &StartOpts::default()).map_err(|e| format!("start: {:?}", e))?;
     let mut c = Conn::connect(&cell.addr(), &StartupOpts::new(USER, "sh", PASS).app("m")).map_err(|e| e.to_string())?;
     let case = |rng: &mut Rng, s: &str| -> String { s.chars().map(|ch| if rng.chance(1, 2) { ch.to_ascii_uppercase() } else { ch.to_ascii_lowercase() }).collect() };
+    // blanks the grammar allows before the command, before and after the semicolon; up to a few hundred
+    let pad = |rng: &mut Rng| -> String { " ".repeat(match rng.below(5) { 0 => rng.range(1, 8) as usize, 1 => rng.range(20, 120) as usize, 2 => rng.range(120, 600) as usize, _ => 0 }) };
     // reference state
     let mut shard: Option<usize> = None;
     let mut role = "any".to_string(); // parser disabled in this pool => default shows "any"
@@ -445,7 +447,9 @@ fn c13_wire(seed: u64, rep: &Report) -> Result<(), String> {
             }
             0 => {
                 let s = rng.below(n as u64) as usize;
-                let sql = format!("{} {}{}{}{}", case(&mut rng, "set shard to"), q, s, q, semi);
+                // (numerals of any length: leading zeros do not change the value)
+                let zeros = "0".repeat(match rng.below(4) { 0 => rng.range(1, 10) as usize, 1 => rng.range(30, 90) as usize, _ => 0 });
+                let sql = format!("{}{} {}{}{}{}{}{}{}", pad(&mut rng), case(&mut rng, "set shard to"), q, zeros, s, q, pad(&mut rng), semi, pad(&mut rng));
                 let r = c.query(&sql, 5000).map_err(|e| format!("{:?}", e.1))?;
                 rep.count("wire_commands", 1);
                 if proto::type_string(&r) != "CZ" {
@@ -455,7 +459,7 @@ fn c13_wire(seed: u64, rep: &Report) -> Result<(), String> {
             }
             1 => {
                 let v = *rng.pick(&["primary", "replica", "any"]);
-                let sql = format!("{} '{}'{}", case(&mut rng, "set server role to"), case(&mut rng, v), semi);
+                let sql = format!("{}{} '{}'{}{}{}", pad(&mut rng), case(&mut rng, "set server role to"), case(&mut rng, v), pad(&mut rng), semi, pad(&mut rng));
                 let r = c.query(&sql, 5000).map_err(|e| format!("{:?}", e.1))?;
                 rep.count("wire_commands", 1);
                 if proto::type_string(&r) != "CZ" {
@@ -465,7 +469,7 @@ fn c13_wire(seed: u64, rep: &Report) -> Result<(), String> {
             }
             2 => {
                 let v = *rng.pick(&["on", "off", "default"]);
-                let sql = format!("{} {}{}{}{}", case(&mut rng, "set primary reads to"), q, case(&mut rng, v), q, semi);
+                let sql = format!("{}{} {}{}{}{}{}{}", pad(&mut rng), case(&mut rng, "set primary reads to"), q, case(&mut rng, v), q, pad(&mut rng), semi, pad(&mut rng));
                 let r = c.query(&sql, 5000).map_err(|e| format!("{:?}", e.1))?;
                 rep.count("wire_commands", 1);
                 if proto::type_string(&r) != "CZ" {
@@ -479,7 +483,7 @@ fn c13_wire(seed: u64, rep: &Report) -> Result<(), String> {
                     1 => ("show server role", role.clone()),
                     _ => ("show primary reads", if preads.unwrap_or(pool_preads) { "on".to_string() } else { "off".to_string() }),
                 };
-                let sql = format!("{}{}", case(&mut rng, cmd), semi);
+                let sql = format!("{}{}{}{}{}", pad(&mut rng), case(&mut rng, cmd), pad(&mut rng), semi, pad(&mut rng));
                 let r = c.query(&sql, 5000).map_err(|e| format!("{:?}", e.1))?;
                 rep.count("wire_commands", 1);
                 let shown = r.iter().find(|m| m.typ == b'D').map(|m| m.row_strings().join(","));
